@@ -10,7 +10,7 @@ from .common import analysis, W_NAMES, tokens, names_in, assigned_values, ifexp_
 from .c02 import union_selection
 
 PROP = "C09"
-TECHNIQUE = "sibling agreement of the branch-label function (writer tuple arm vs validator tuple arm vs names reported by the reader) by alpha-normalised syntax; CFG rules for unknown hint, visiting order, strict tie-break; nondeterminism census over the call graph"
+TECHNIQUE = "the branch-label function of writer and validator extracted from per-path summaries as a set of (conditions, label) pairs and compared; provenance dataflow for the union index (unknown hint raises); CFG rules for visiting order and strict tie-break; nondeterminism census over the call graph"
 LEVEL_TEXT = (
     "Static analysis: the function 'branch -> hint name' is extracted from the tuple arm of write_union and of _validate_union and "
     "must be the same computation (alpha-normalised), with the same enabling guard; the reader must report names in the same "
